@@ -94,13 +94,17 @@ def run(ctx):
     import modelcheck
     mc = modelcheck.run_parser_model(ctx, ["C10"], cbfail_ok=False)      # transaction bound + structure; pairing itself is judged on traces
     scns = scenarios(ctx)
+    import drift
+    drift.with_steps(scns, every=1 if not ctx.quick else max(1, -(-len(scns) // 800)))
     exe = vlib.build(ctx, "san", ["rec"])["rec"]
     files = streams.run_rec(ctx, exe, scns, "c04")
     execs, events, viols = streams.judge_obs(ctx, files, PROPS)
     streams.attach_replays(ctx, viols, scns)
     ctx.violations += viols
     wf = sum(1 for s in scns if s.cfg.get("wf") == 1)
+    acc = drift.check(ctx, files)
     vlib.finish(ctx, "model_checking", {
+        "model_acceptance": acc,
         "states": mc["distinct"], "transitions": mc["generated"], "traces_validated_against_impl": execs,
         "evaluations": execs, "distinct_nontrivial": len({s.text().split("\n", 1)[1] for s in scns if s.nbytes() > 0}),
         "legal_wellformed_schedules": wf, "events_judged": events, "model": mc["what"],
